@@ -14,8 +14,9 @@ import (
 )
 
 type EVal struct {
-	T  Term
-	Ty types.Type // nil for purely logical values
+	T    Term
+	Ty   types.Type // nil for purely logical values
+	Addr *Term      // lazily loaded struct: the value lives at this address (T unset)
 }
 
 type Env struct {
@@ -101,7 +102,9 @@ func sortByName(u *Unit, n string) (Sort, types.Type) {
 
 func (e *Env) skolem(name, sortName string) EVal {
 	so, ty := sortByName(e.u, sortName)
-	c := e.u.Const("sk!"+sanitize(e.key)+"!"+name, so)
+	// one skolem per (variable name, sort) in a unit: invariants and postconditions
+	// that quantify over the same name talk about the same arbitrary index
+	c := e.u.Const("sk!"+name+"!"+sanitize(sortName), so)
 	found := false
 	for _, s := range e.u.skol {
 		if s.String() == c.String() {
@@ -123,6 +126,14 @@ func (e *Env) skolem(name, sortName string) EVal {
 }
 
 func (e *Env) eval(x Expr) EVal {
+	v := e.evalLazy(x)
+	if v.Addr != nil {
+		return EVal{T: e.u.load(e.st, *v.Addr, v.Ty), Ty: v.Ty}
+	}
+	return v
+}
+
+func (e *Env) evalLazy(x Expr) EVal {
 	u := e.u
 	switch x := x.(type) {
 	case EInt:
@@ -179,7 +190,7 @@ func (e *Env) eval(x Expr) EVal {
 				}
 			}
 		}
-		base := e.eval(x.X)
+		base := e.evalLazy(x.X)
 		return e.selectField(base, x.Name)
 	case EIndex:
 		base := e.eval(x.X)
@@ -460,12 +471,28 @@ func (e *Env) selectField(base EVal, name string) EVal {
 	cur := base
 	for _, idx := range path {
 		t := cur.Ty
+		if cur.Addr != nil {
+			// struct living in memory: stay lazy
+			st := t.Underlying().(*types.Struct)
+			addr := u.fieldAddr(*cur.Addr, t, idx)
+			ft := st.Field(idx).Type()
+			if _, isSt := isStruct(ft); isSt {
+				cur = EVal{Ty: ft, Addr: &addr}
+			} else {
+				cur = EVal{T: u.loadGhostAware(e.st, addr, ft), Ty: ft}
+			}
+			continue
+		}
 		if pt, ok := t.Underlying().(*types.Pointer); ok {
 			// field through pointer: load leaf from memory
 			st := pt.Elem().Underlying().(*types.Struct)
 			addr := u.fieldAddr(cur.T, pt.Elem(), idx)
 			ft := st.Field(idx).Type()
-			cur = EVal{T: u.loadGhostAware(e.st, addr, ft), Ty: ft}
+			if _, isSt := isStruct(ft); isSt {
+				cur = EVal{Ty: ft, Addr: &addr}
+			} else {
+				cur = EVal{T: u.loadGhostAware(e.st, addr, ft), Ty: ft}
+			}
 			continue
 		}
 		stt, ok := t.Underlying().(*types.Struct)
@@ -514,9 +541,16 @@ func (e *Env) addrOf(x Expr) (Term, types.Type) {
 	u := e.u
 	switch x := x.(type) {
 	case ESel:
-		base := e.eval(x.X)
+		base := e.evalLazy(x.X)
 		if base.Ty == nil {
 			efail("cannot take address of field of untyped value")
+		}
+		if base.Addr != nil {
+			obj, path := lookupFieldAnyPkg(base.Ty, x.Name)
+			if obj == nil || len(path) != 1 {
+				efail("no direct field %q in %s", x.Name, base.Ty)
+			}
+			return u.fieldAddr(*base.Addr, base.Ty, path[0]), obj.Type()
 		}
 		pt, ok := base.Ty.Underlying().(*types.Pointer)
 		if !ok {
@@ -679,7 +713,11 @@ func (e *Env) call(x ECall) EVal {
 			for _, d := range ev.Desigs {
 				if d == name {
 					if idx < len(ev.Res) {
-						return EVal{T: ev.Res[idx]}
+						var ty types.Type
+						if idx < len(ev.ResTys) {
+							ty = ev.ResTys[idx]
+						}
+						return EVal{T: ev.Res[idx], Ty: ty}
 					}
 					efail("lastresult: call to %s has no result %d", name, idx)
 				}
